@@ -39,6 +39,7 @@ def tasks(tier):
         ts.append(("badmethod", m, 3))
     ts.append(("lists", 3))
     ts.append(("narrow",))
+    ts.append(("extreme",))
     ts.append(("long", 0)); ts.append(("long", 1))
     return ts
 
@@ -97,6 +98,26 @@ def run_task(task, acc):
                     for m in METHODS:
                         for s, f in ((1.5, 3.0), (0.5, None), (None, 1.5)):
                             yield dict(x=list(x), suspect=s, fail=f, method=m, carrier=carrier)
+        run_cases(acc, gen(), check_case)
+    elif kind == "extreme":
+        def gen():
+            sig = (1e308, -1e308, 0.0, 6e307, -6e307, 2.0)
+            for x in alpha.all_seqs(sig, 3, 4):
+                # judged only where the formula of the statement stays finite in double precision
+                # judged only where every intermediate of the statement's formula stays well inside the double range
+                # (numpy.ma's safe division masks quotients of values within a factor ~2 of the largest double)
+                LIM = 8e307
+                for m in METHODS:
+                    ok = True
+                    for i in range(1, len(x) - 1):
+                        a, b, c = x[i - 1], x[i], x[i + 1]
+                        vals = (a + c, (a + c) / 2, b - (a + c) / 2) if m == "average" else (b - a, c - b)
+                        if any(v != v or abs(v) > LIM for v in vals):
+                            ok = False
+                    if not ok:
+                        continue
+                    for s, f in ((1.0, 1e300), (1e307, None), (None, 1.0)):
+                        yield dict(x=list(x), suspect=s, fail=f, method=m)
         run_cases(acc, gen(), check_case)
     elif kind == "lists":
         sig = (0.0, 3.0, alpha.NAN, None)
